@@ -362,14 +362,15 @@ pub fn cancel_outcome(c: &CancelCase) -> Outcome {
 fn gen_cancel(s: &mut Src<'_>) -> CancelCase {
     let kind = s.pick(&KINDS);
     let np = if kind == Kind::Req { 1 } else { s.range(1, 3) };
+    let long_run = s.chance(1, 8);
     let peers: Vec<Vec<Vec<usize>>> = (0..np)
         .map(|_| {
-            let nm = s.range(1, 4);
+            let nm = if long_run { s.range(15, 40) } else { s.range(1, 4) };
             (0..nm)
                 .map(|_| {
                     let nf = if kind == Kind::XPub { 1 } else { s.range(1, 4) };
                     (0..nf)
-                        .map(|_| match s.weighted(&[4, 3, 1]) {
+                        .map(|_| match if long_run { 0 } else { s.weighted(&[4, 3, 1]) } {
                             0 => s.range(0, 10),
                             1 => s.range(10, 300),
                             _ => s.range(300, 12_000),
@@ -379,10 +380,10 @@ fn gen_cancel(s: &mut Src<'_>) -> CancelCase {
                 .collect()
         })
         .collect();
-    let n = s.range(5, 60);
+    let n = if long_run { s.range(60, 200) } else { s.range(5, 60) };
     let ops = (0..n)
         .map(|_| match s.weighted(&[6, 6, 3, 2, 1, 1]) {
-            0 => Op::Deliver(s.below(np), s.pick(&[1usize, 1, 2, 3, 9, 40, 0])),
+            0 => Op::Deliver(s.below(np), if long_run { s.pick(&[0usize, 0, 40, 9]) } else { s.pick(&[1usize, 1, 2, 3, 9, 40, 0]) }),
             1 => Op::Poll(s.range(1, 3)),
             2 => Op::Cancel,
             3 => Op::TrySend,
@@ -426,6 +427,21 @@ pub fn run(ctx: &Ctx) -> (Report, PropertyMeta) {
                     cases.push(CancelCase { kind, peers: vec![vec![lens.clone(), vec![2]]], ops });
                 }
             }
+        }
+    }
+    // long runs: 70 available messages, every recv polled ONCE and then dropped if it has not
+    // completed (behaviour that depends on how many messages went before - batching, periodic
+    // yields - shows only after dozens of calls)
+    for kind in KINDS {
+        for polls in [1usize, 2] {
+            let lens = if kind == Kind::XPub { vec![9usize] } else { vec![2usize] };
+            let mut ops = vec![Op::Deliver(0, 0), Op::Deliver(1, 0)];
+            for _ in 0..90 {
+                ops.push(Op::Poll(polls));
+                ops.push(Op::Cancel);
+            }
+            let peers = if kind == Kind::Req { vec![vec![lens.clone(); 70]] } else { vec![vec![lens.clone(); 50], vec![lens.clone(); 20]] };
+            cases.push(CancelCase { kind, peers, ops });
         }
     }
     let r = run_cases(ctx, "cancel", &cases, cancel_outcome);
